@@ -451,6 +451,7 @@ func c10Dirs(c *Ctx, r *Report) {
 	r.check("C10.DIRS", fnName(vdu)+": rejects a use at a location not listed in the directive's On", vdu.Pos(), badLoc, "missing rejection of misplaced directives")
 	r.check("C10.DIRS", fnName(vdu)+": rejects an argument the directive does not declare", vdu.Pos(), unknownArg, "missing rejection of unknown directive arguments")
 	dirUseArgLoop(c, r, "C10.DIRS")
+	dirUseLocation(c, r, "C10.DIRS")
 }
 
 func posFn(f *ssa.Function) token.Pos {
@@ -811,4 +812,74 @@ func c10ArgFrozen(c *Ctx, r *Report, a *Anchors) {
 	r.fnSeen(fnName(a.formArgs))
 	r.check("C10.DEFFROZEN", fnName(a.formArgs)+": writes nothing into field or argument definitions", a.formArgs.Pos(), bad == 0, fmt.Sprintf("%d write(s) into schema definitions among %d summarised writes", bad, n))
 	r.floor("C10.DEFFROZEN", "functions summarised below the argument builder", len(eng.sums), 5)
+}
+
+// dirUseLocation: "directives applied only at declared locations": the flag that decides the
+// "can not be applied to" rejection is false unless it was set under an equality test of the use's location
+// with an element of the directive's On list. Every value the flag can have where it is tested is the constant
+// false, or the constant true on an edge guarded by that comparison.
+func dirUseLocation(c *Ctx, r *Report, rule string) {
+	vdu := c.fn("(*Root).validateDirUse")
+	if vdu == nil {
+		return
+	}
+	var locP *ssa.Parameter
+	for _, p := range vdu.Params {
+		if c.isNamed(p.Type(), "Location") {
+			locP = p
+		}
+	}
+	n := 0
+	for _, b := range vdu.Blocks {
+		if len(b.Instrs) == 0 {
+			continue
+		}
+		ifi, ok := b.Instrs[len(b.Instrs)-1].(*ssa.If)
+		if !ok {
+			continue
+		}
+		ph, ok := ifi.Cond.(*ssa.Phi)
+		if !ok {
+			continue
+		}
+		if bt, ok := ph.Type().Underlying().(*types.Basic); !ok || bt.Info()&types.IsBoolean == 0 {
+			continue
+		}
+		n++
+		bad := ""
+		leaves, _ := phiLeaves(ph)
+		for _, lf := range leaves {
+			k, isC := lf.val.(*ssa.Const)
+			if !isC || k.Value == nil {
+				bad = "it can start as " + shortPath(vpath(lf.val))
+				continue
+			}
+			if k.Value.String() == "false" {
+				continue
+			}
+			// true: only on an edge guarded by loc == on
+			okEdge := false
+			if lf.pred != nil {
+				gs := append(blockGuards(lf.pred), edgeGuards(lf.pred, lf.phi.Block())...)
+				for _, g := range gs {
+					g = normGuard(g)
+					bo, ok := g.cond.(*ssa.BinOp)
+					if !ok || bo.Op != token.EQL || !g.val {
+						continue
+					}
+					if locP != nil && (stripIface(bo.X) == ssa.Value(locP) || stripIface(bo.Y) == ssa.Value(locP)) {
+						okEdge = true
+					}
+				}
+			}
+			if !okEdge {
+				bad = "it is set to true without a match of the location"
+			}
+		}
+		r.check(rule, fnName(vdu)+": the location-match flag is true only after loc matched an element of the directive's On list", ifi.Pos(), bad == "",
+			bad+": for such a carrier every directive is accepted, whatever locations it declares")
+	}
+	if n == 0 {
+		r.undecided(rule, fnName(vdu)+": location-match flag", vdu.Pos(), "no test of a boolean flag found")
+	}
 }
